@@ -26,8 +26,9 @@ def space(tier):
 
 
 def cases(tier):
+    q = tier == 'quick'
     for d in (1, 2, 3):
-        for m in (1, 2, 3, 4, 5, 6):
+        for m in ((1, 2, 3, 4, 5, 6) if q else (1, 2, 3, 4, 5, 6, 8, 10)):
             for n in (2, 3):
                 for s in range(NREP):
                     for fam, thr in (('gauss', 0), ('gauss', 1e-10), ('repeat', 1e-10)):
@@ -40,10 +41,12 @@ def cases(tier):
                 for ws in itertools.product(*([[(s, n) for n in (2, 3) for s in (0, 1, 3)]] * p)):
                     for dout in (1, 2, 3):
                         yield {'k': 'kb', 'd': d, 'm': m, 'ws': [list(w) for w in ws], 'dout': dout}
-    for p in (2, 3):
+    for p in ((2, 3) if q else (2, 3, 4)):
         d = p                      # mode k depends on coordinate k only: products of the basis functions are independent
-        for m in (3, 5, 8, 12):
-            for ws in itertools.product(*([[(s, n) for n in (2, 3) for s in (0, 1, 3)]] * p)):
+        for m in ((3, 5, 8, 12) if (q or p == 4) else (3, 5, 8, 12, 20)):
+            if p == 4 and m < 8:
+                continue
+            for ws in itertools.product(*([[(s, n) for n in ((2, 3) if p < 4 else (2,)) for s in (0, 1, 3)]] * p)):
                 n = [w[1] for w in ws]
                 for rg in admissible_ranks(n):
                     for dout in (1, 2):
